@@ -242,6 +242,20 @@ fn body_with_alts(generate: impl Fn(&Ch) -> World + Sync + Send, depth: usize, s
     let n_ops = 4 + editable.len();
     let mut import_given = false;
     let mut outcome = vec![];
+    // boundary: the history may begin with a build that has no roots at all
+    if ch.choose("history_begins_with_a_build_without_roots", 2) == 1 {
+      let sched = Sched::new(SchedMode::Immediate);
+      let loader = ScriptedLoader::new(sched);
+      world.install(&loader);
+      if build_graph(&mut graph, vec![], &loader, BuildCfg { is_dynamic, ..Default::default() }, ch).is_err() {
+        run.violate("build-did-not-finish", "deadlock on a build without roots", json!({}));
+      }
+      let o = obs(&graph);
+      if !o["slots"].as_object().unwrap().is_empty() || !o["roots"].as_array().unwrap().is_empty() || !o["redirects"].as_object().unwrap().is_empty() {
+        run.violate("build-without-roots-changes-graph", "a build with an empty root list left something in the graph", json!({"graph": o["slots"], "roots": o["roots"]}));
+      }
+      history.push("build()".into());
+    }
     for step in 0..depth {
       // op 0 = stop (so that shorter histories are prefixes, explored once)
       let op = ch.shape("op", n_ops + 1);
